@@ -275,18 +275,27 @@ def nnx_transform_metadata(tr, ka, other, order, oa):
   axes = nnx.StateAxes(dict(items))
   seen = []
 
+  ko = pick([0, 1, -1], oa)
+
   def body(mm, x):
     seen.append(_names_ok(mm.w, wshape, wnames))
     seen.append(_names_ok(mm.c, (1,), ('stat',)))
-    return x
+    # a Variable created inside the body and returned as a stacked output
+    fresh = nnx.Param(Arr([7, 8], (2,)))
+    fresh.sharding = ('feat',)
+    return x, fresh
   x = Arr([1, 2, 3], (n,))
   md = {nnx.PARTITION_NAME: PN}
   with C08.VmapEnv():
     if tr == 0:
-      nnx.vmap(body, in_axes=(axes, 0), out_axes=oa * 0, transform_metadata=md)(m, x)
+      _, out = nnx.vmap(body, in_axes=(axes, 0), out_axes=(0, ko),
+                        transform_metadata=md)(m, x)
     else:
-      nnx.scan(body, in_axes=(axes, 0), out_axes=0, transform_metadata=md)(m, x)
+      _, out = nnx.scan(body, in_axes=(axes, 0), out_axes=(0, ko),
+                        transform_metadata=md)(m, x)
   if not seen or not all(seen):
+    return False
+  if not _names_ok(out, _ins((2,), ko, n), _ins(('feat',), ko, PN)):
     return False
   return _names_ok(m.w, full_shape, full_names) and _names_ok(
       m.c, c.shape, cnames)
